@@ -147,7 +147,23 @@ pub fn run(cfg: &Cfg, rep: &mut Report) {
             10 => ty.max + 1,
             _ => rng.range(-300, 300) as i128,
         };
-        let plain = around(rng, anchor);
+        let plain = if rng.chance(1, 14) {
+            // magnitudes at the limits of 128-bit accumulators (2^127, 2^128) and the powers of ten next to them, both signs:
+            // far outside every target, so only -222 is right
+            let k = rng.usize(300) as u128;
+            let mag = match rng.usize(6) {
+                0 => format!("{}", u128::MAX - k),
+                1 => format!("3402823669209384634633746074317682114{:02}", 56 + rng.usize(43)),
+                2 => format!("{}", (1u128 << 127) - 1 - k),
+                3 => format!("{}", (1u128 << 127) + k),
+                4 => format!("1{}", "0".repeat(38 + rng.usize(3))),
+                _ => format!("{}{}", 9, "9".repeat(37 + rng.usize(3))),
+            };
+            let frac = *rng.pick(&["", "", ".0", ".5", ".49", ".9"]);
+            format!("{}{}{}", if rng.bool() { "-" } else { "" }, mag, frac)
+        } else {
+            around(rng, anchor)
+        };
         let lit = respell(rng, &plain);
         ctx.nontrivial(mix(hash_str(&lit), ctx.index % 10));
         check_decimal(ctx, lit.as_bytes(), ty, "TryFrom<Token>");
